@@ -15,13 +15,16 @@ func init() {
 
 // Work-pulling producer controller (volatile: queue == nil), one arbitrary message from an arbitrary state satisfying Inv.
 //
-// Job universe: 4 ids. Ghost per job: where it is (nowhere / pending pool / worker w1 / worker w2), its payload byte and
+// Job universe: 3 ids. Ghost per job: where it is (nowhere / pending pool / worker w1 / worker w2), its payload byte and
 // its producer-visible store sequence. Workers: "w1", "w2" (each bound or not).
 
-const vC44_jobs = 4
+const vC44_jobs = 3
+
+// sequence numbers of the pre-state lie below this bound (the handlers are translation invariant below their overflow guards)
+const vC44_seqBound = 1 << 16
 
 var (
-	vC44_ids      = [vC44_jobs]string{"j0", "j1", "j2", "j3"}
+	vC44_ids      = [vC44_jobs]string{"j0", "j1", "j2"}
 	vC44_names    = [2]string{"w1", "w2"}
 	vC44_pay      [vC44_jobs]byte
 	vC44_storeSeq [vC44_jobs]int64
@@ -44,26 +47,27 @@ func vC44_idIndex(id string) int {
 func vC44_wtell(x *workPullingProducerController, ctx *ReceiveContext, to *PID, message any) {
 	if sm, ok := message.(*commands.SequencedMessage); ok {
 		vC44_emitted++
-		owner := 0
+		owner, underDemand, assigned, hit, same := 0, true, true, 0, true
 		for w := 0; w < 2; w++ {
 			b := x.bindings[vC44_names[w]]
 			if b != nil && b.controller == to {
 				owner++
-				vAssert(sm.Seq() <= b.demandUpTo, "a job is emitted to a worker only at or below that worker's granted demand (workerSeq <= demandUpTo)")
-				vAssert(sm.Seq() > b.confirmedSeq && sm.Seq() <= b.currentSeq, "a job is emitted under a sequence assigned to that worker and not yet confirmed")
-				hit := 0
-				for i := 0; i < 5; i++ {
+				underDemand = underDemand && sm.Seq() <= b.demandUpTo
+				assigned = assigned && sm.Seq() > b.confirmedSeq && sm.Seq() <= b.currentSeq
+				for i := 0; i < 4; i++ {
 					if i < len(b.unconfirmed) && b.unconfirmed[i].workerSeq == sm.Seq() {
 						hit++
 						e := b.unconfirmed[i]
 						j := vC44_idIndex(e.messageID)
-						vAssert(sm.MessageID() == e.messageID && j >= 0 && vC42x_is1(sm.Payload(), vC44_pay[j]), "the emitted job is the one recorded as unconfirmed for that worker under that sequence, with its payload")
+						same = same && sm.MessageID() == e.messageID && j >= 0 && vC42x_is1(sm.Payload(), vC44_pay[j])
 					}
 				}
-				vAssert(hit == 1, "an emitted job is recorded exactly once in the worker's unconfirmed list")
 			}
 		}
 		vAssert(owner == 1, "a sequenced job goes to the controller of exactly one live binding")
+		vAssert(underDemand, "a job is emitted to a worker only at or below that worker's granted demand (workerSeq <= demandUpTo)")
+		vAssert(assigned, "a job is emitted under a sequence assigned to that worker and not yet confirmed")
+		vAssert(hit == 1 && same, "the emitted job is the one recorded (exactly once) as unconfirmed for that worker under that sequence, with its payload")
 		vAssert(sm.SessionID() == x.sessionID, "emissions carry the controller's session")
 	}
 	if dc, ok := message.(*DeliveryConfirmed); ok {
@@ -82,7 +86,7 @@ func vC42x_is1(b []byte, v byte) bool { return len(b) == 1 && b[0] == v }
 // number of times job j is held (pending pool + every binding's unconfirmed list), checking payload/storeSeq on the way
 func vC44_count(x *workPullingProducerController, j int) (int, bool) {
 	n, intact := 0, true
-	for i := 0; i < 6; i++ {
+	for i := 0; i < 4; i++ {
 		if i < len(x.pending) && x.pending[i].messageID == vC44_ids[j] {
 			n++
 			intact = intact && vC42x_is1(x.pending[i].payload.bytes, vC44_pay[j]) && x.pending[i].storeSeq == vC44_storeSeq[j]
@@ -91,7 +95,7 @@ func vC44_count(x *workPullingProducerController, j int) (int, bool) {
 	for w := 0; w < 2; w++ {
 		b := x.bindings[vC44_names[w]]
 		if b != nil {
-			for i := 0; i < 6; i++ {
+			for i := 0; i < 4; i++ {
 				if i < len(b.unconfirmed) && b.unconfirmed[i].messageID == vC44_ids[j] {
 					n++
 					intact = intact && vC42x_is1(b.unconfirmed[i].payload.bytes, vC44_pay[j]) && b.unconfirmed[i].storeSeq == vC44_storeSeq[j]
@@ -102,11 +106,9 @@ func vC44_count(x *workPullingProducerController, j int) (int, bool) {
 	return n, intact
 }
 
-// Inv: bindingOrder lists exactly the keys of bindings, each once; nextWorker <= len(bindingOrder); per binding
-// 0 <= confirmedSeq <= currentSeq, unconfirmed = ascending contiguous worker sequences (confirmedSeq, currentSeq],
-// a controller is set and the binding is filed under its endpoint name; every held entry is a job of the universe
-func vC44_inv(x *workPullingProducerController) bool {
-	ok := len(x.bindings) == len(x.bindingOrder) && len(x.bindingOrder) <= 2 && x.nextWorker >= 0 && x.nextWorker <= len(x.bindingOrder) && len(x.pending) <= 6
+// Inv (1): bindingOrder lists exactly the keys of bindings, each once; nextWorker <= len(bindingOrder)
+func vC44_invOrder(x *workPullingProducerController) bool {
+	ok := len(x.bindings) == len(x.bindingOrder) && len(x.bindingOrder) <= 2 && x.nextWorker >= 0 && x.nextWorker <= len(x.bindingOrder)
 	for i := 0; i < 2; i++ {
 		if i < len(x.bindingOrder) {
 			b := x.bindings[x.bindingOrder[i]]
@@ -114,19 +116,30 @@ func vC44_inv(x *workPullingProducerController) bool {
 			ok = ok && (x.bindingOrder[i] == vC44_names[0] || x.bindingOrder[i] == vC44_names[1])
 		}
 	}
-	for w := 0; w < 2; w++ {
-		b := x.bindings[vC44_names[w]]
-		if b != nil {
-			ok = ok && b.endpointName == vC44_names[w] && b.controller != nil && b.confirmedSeq >= 0 && b.confirmedSeq <= b.currentSeq && b.demandUpTo >= 0
-			ok = ok && int64(len(b.unconfirmed)) == b.currentSeq-b.confirmedSeq && len(b.unconfirmed) <= 6
-			for i := 0; i < 6; i++ {
-				if i < len(b.unconfirmed) {
-					ok = ok && b.unconfirmed[i].workerSeq == b.confirmedSeq+1+int64(i) && vC44_idIndex(b.unconfirmed[i].messageID) >= 0
-				}
-			}
+	return ok
+}
+
+// Inv (2), per binding: 0 <= confirmedSeq <= currentSeq, unconfirmed = ascending contiguous worker sequences
+// (confirmedSeq, currentSeq], a controller is set and the binding is filed under its endpoint name
+func vC44_invBinding(x *workPullingProducerController, w int) bool {
+	b := x.bindings[vC44_names[w]]
+	if b == nil {
+		return true
+	}
+	ok := b.endpointName == vC44_names[w] && b.controller != nil && b.confirmedSeq >= 0 && b.confirmedSeq <= b.currentSeq && b.demandUpTo >= 0
+	ok = ok && int64(len(b.unconfirmed)) == b.currentSeq-b.confirmedSeq && len(b.unconfirmed) <= 4
+	for i := 0; i < 4; i++ {
+		if i < len(b.unconfirmed) {
+			ok = ok && b.unconfirmed[i].workerSeq == b.confirmedSeq+1+int64(i) && vC44_idIndex(b.unconfirmed[i].messageID) >= 0
 		}
 	}
-	for i := 0; i < 6; i++ {
+	return ok
+}
+
+// Inv (3): every pending entry is a job of the universe
+func vC44_invPending(x *workPullingProducerController) bool {
+	ok := len(x.pending) <= 4
+	for i := 0; i < 4; i++ {
 		if i < len(x.pending) {
 			ok = ok && vC44_idIndex(x.pending[i].messageID) >= 0
 		}
@@ -155,7 +168,7 @@ func vC44_step() {
 			b := &bindingWork{endpointName: vC44_names[w], controller: ctl[w], registrationNonce: "N"}
 			b.confirmedSeq = vNondetInt64("bindingConfirmed")
 			b.demandUpTo = vNondetInt64("bindingDemand")
-			vAssume(b.confirmedSeq >= 0 && b.confirmedSeq < 1<<62 && b.demandUpTo >= 0)
+			vAssume(b.confirmedSeq >= 0 && b.confirmedSeq < vC44_seqBound && b.demandUpTo >= 0 && b.demandUpTo < 2*vC44_seqBound)
 			b.currentSeq = b.confirmedSeq
 			x.bindings[vC44_names[w]] = b
 			x.bindingOrder = append(x.bindingOrder, vC44_names[w])
@@ -168,9 +181,8 @@ func vC44_step() {
 	for j := 0; j < vC44_jobs; j++ {
 		loc[j] = vChoose("jobLocation", 4)
 		vC44_pay[j] = vNondetByte("jobPayload")
-		vC44_storeSeq[j] = vNondetInt64("jobStoreSeq")
+		vC44_storeSeq[j] = int64(11 + j) // carried data only: distinct concrete values
 		vC44_confirmed[j] = 0
-		vAssume(vC44_storeSeq[j] >= 1 && vC44_storeSeq[j] < 1<<62)
 		switch loc[j] {
 		case 1:
 			x.pending = append(x.pending, pendingWork{messageID: vC44_ids[j], storeSeq: vC44_storeSeq[j], payload: ReliablePayload{bytes: []byte{vC44_pay[j]}}})
@@ -184,7 +196,7 @@ func vC44_step() {
 		}
 	}
 	x.storeSeq = vNondetInt64("storeSeq")
-	vAssume(x.storeSeq >= 0 && x.storeSeq < 1<<62)
+	vAssume(x.storeSeq >= 0 && x.storeSeq < vC44_seqBound)
 	// ---- handshake at rest: Idle, Credit, or StoredAck (store and accept complete synchronously without a queue)
 	pendingJob := -1
 	switch vChoose("handshake", 3) {
@@ -204,7 +216,7 @@ func vC44_step() {
 		x.lastCompletedToken = "T0"
 		x.lastCompletedMessageID = vC44_ids[vChoose("completedJob", vC44_jobs)]
 	}
-	vAssume(vC44_inv(x))
+	vAssume(vC44_invOrder(x) && vC44_invBinding(x, 0) && vC44_invBinding(x, 1) && vC44_invPending(x))
 
 	// ---- the message
 	sender := prod
@@ -303,7 +315,10 @@ func vC44_step() {
 		vCover("terminated")
 		return
 	}
-	vAssert(vC44_inv(x), "Inv preserved: bindingOrder = keys of bindings, nextWorker in range, per-binding unconfirmed ascending contiguous in (confirmedSeq, currentSeq]")
+	vAssert(vC44_invOrder(x), "Inv preserved: bindingOrder lists exactly the keys of bindings, each once, and nextWorker <= len(bindingOrder)")
+	vAssert(vC44_invBinding(x, 0), "Inv preserved (w1): unconfirmed ascending contiguous in (confirmedSeq, currentSeq]")
+	vAssert(vC44_invBinding(x, 1), "Inv preserved (w2): unconfirmed ascending contiguous in (confirmedSeq, currentSeq]")
+	vAssert(vC44_invPending(x), "Inv preserved: the pending pool holds accepted jobs only")
 	for j := 0; j < vC44_jobs; j++ {
 		n, intact := vC44_count(x, j)
 		// a held job leaves only by an authenticated, legal confirmation covering its worker sequence
